@@ -114,6 +114,13 @@ func launchScenario(r *rand.Rand) []dbx.Op {
 		regs[len(regs)-1] = "nowhere"
 	case 6:
 		counts[0] = 1 << 63
+	case 7:
+		// counts that wrap around when added up (or turn negative as int): the sum is "right", the specification is not
+		regs = []string{"reg0", "reg1", "reg2"}
+		counts = []uint64{1<<64 - 1, 1, uint64(size)}
+	case 8:
+		regs = []string{"reg0", "reg1", "reg2"}
+		counts = []uint64{1 << 63, 1 << 63, uint64(size)}
 	}
 	if r.Intn(10) != 0 {
 		ops = append(ops, regionsOp(regs, counts, false))
@@ -167,6 +174,26 @@ func launchScenario(r *rand.Rand) []dbx.Op {
 	if r.Intn(3) == 0 {
 		for i := 0; i < 10+r.Intn(4); i++ {
 			ops = append(ops, dbx.Op{Op: "tick"})
+		}
+		ops = append(ops, dbx.Op{Op: "sched", Mode: "launch"})
+	}
+	if r.Intn(3) == 0 && h > 0 {
+		// another planning round by the same leader after the fleet has changed without changing size: hosts report
+		// again from another region, or now host (a pending replica of) one of the shards, or fell silent meanwhile
+		for k := 1 + r.Intn(3); k > 0; k-- {
+			a := fmt.Sprintf("a%d", 1+r.Intn(h))
+			rep := dbx.Op{Op: "report", Addr: a, RPC: "rpc-" + a, Region: []string{"reg0", "reg1", "reg2"}[r.Intn(3)]}
+			if r.Intn(2) == 0 {
+				rep.IDs = []uint64{uint64(1 + r.Intn(nsh))}
+			}
+			ops = append(ops, rep)
+		}
+		if r.Intn(3) == 0 {
+			for i := 0; i < 13; i++ {
+				ops = append(ops, dbx.Op{Op: "tick"})
+			}
+			a := fmt.Sprintf("a%d", 1+r.Intn(h))
+			ops = append(ops, dbx.Op{Op: "report", Addr: a, RPC: "rpc-" + a, Region: "reg0"})
 		}
 		ops = append(ops, dbx.Op{Op: "sched", Mode: "launch"})
 	}
